@@ -1,7 +1,7 @@
 (** Dispatcher of the executable model: one input line -> one observation
     line, for the generated tables and for the specified tables. *)
 From Coq Require Import String.
-From PSA Require Import Base Lines Lifecycle Regex Claims Obs CaseClaims RunC14 RunHist Tags Wire Codec RunCodec.
+From PSA Require Import Base Lines Lifecycle Regex Claims Obs CaseClaims RunC14 RunHist Tags Wire Codec RunCodec Evidence RunEv.
 From PSA.Spec Require Import SpecTables SpecTags.
 From PSA.Gen Require Import GenConsts GenTags.
 Open Scope N_scope.
@@ -17,6 +17,7 @@ Definition run_line (cfg : ccfg) (w : wcfg) (line : bytes) : bytes :=
       else if bytes_eqb p (s2b "ENC") then run_enc w args
       else if bytes_eqb p (s2b "DEC") then run_dec cfg w args
       else if bytes_eqb p (s2b "RT") then run_rt cfg w args
+      else if bytes_eqb p (s2b "EV") then run_ev cfg w args
       else bad_input
   | [] => bad_input
   end.
